@@ -59,15 +59,32 @@ impl ConstantFoldingRule {
             LogicalOperator::Filter(filter) => {
                 let input_changed = self.fold_plan(filter.input, arena)?;
 
-                if let Some(folded) = self.try_fold_filter_predicate(filter.predicate) {
+                // a filter that is already the constant FALSE is in normal form (no further rewrite)
+                let already_false = matches!(
+                    filter.predicate,
+                    crate::sql::ast::Expr::Literal(crate::sql::ast::Literal::Boolean(false))
+                );
+
+                if let Some(folded) = self
+                    .try_fold_filter_predicate(filter.predicate)
+                    .filter(|f| !(already_false && matches!(f, FoldedPredicate::AlwaysFalse)))
+                {
                     match folded {
                         FoldedPredicate::AlwaysTrue => {
                             return Ok(Some(input_changed.unwrap_or(filter.input)));
                         }
                         FoldedPredicate::AlwaysFalse => {
-                            return Ok(Some(arena.alloc(LogicalOperator::Values(
-                                crate::sql::planner::LogicalValues { rows: &[] },
-                            ))));
+                            // An empty Values node cannot be planned outside INSERT; keep the
+                            // filter with a constant FALSE predicate so the query yields no rows.
+                            let new_filter = crate::sql::planner::LogicalFilter {
+                                input: input_changed.unwrap_or(filter.input),
+                                predicate: arena.alloc(crate::sql::ast::Expr::Literal(
+                                    crate::sql::ast::Literal::Boolean(false),
+                                )),
+                            };
+                            return Ok(Some(
+                                arena.alloc(LogicalOperator::Filter(new_filter)),
+                            ));
                         }
                         FoldedPredicate::Simplified(new_pred) => {
                             let new_filter = crate::sql::planner::LogicalFilter {
@@ -263,7 +280,10 @@ impl ConstantFoldingRule {
                 }
                 BinaryOperator::NotEq => {
                     if let (Expr::Literal(l), Expr::Literal(r)) = (*left, *right) {
-                        Some(if literals_equal(l, r) {
+                        // a comparison with NULL is UNKNOWN, which a filter treats like FALSE
+                        Some(if matches!(l, Literal::Null) || matches!(r, Literal::Null) {
+                            FoldedPredicate::AlwaysFalse
+                        } else if literals_equal(l, r) {
                             FoldedPredicate::AlwaysFalse
                         } else {
                             FoldedPredicate::AlwaysTrue
